@@ -15,6 +15,7 @@ typedef struct ctxobj {
     int populated, concurrent;
     volatile int bg_stop, bg_ticks;
     ABT_thread bg;
+    ABT_xstream jxs; /* a secondary stream that was joined and not freed */
 } ctxobj;
 static ctxobj X;
 static volatile int enumerating_on_ext;
@@ -392,6 +393,29 @@ static void u_set_assoc_upool(void **h)
     (void)h;
     ABT_OK(ABT_thread_set_associated_pool(X.blocked, X.pool));
 }
+static int d_set_main_sched_joined(void **h)
+{
+    /* replace the main scheduler of a joined stream by one whose first pool is user-defined:
+     * the scheduler's own ULT gets a unit of that pool (create_unit + a map entry) */
+    ABT_sched sched;
+    int rc = ABT_sched_create_basic(ABT_SCHED_BASIC, 1, &UP.pool, ABT_SCHED_CONFIG_NULL, &sched);
+    if (rc != ABT_SUCCESS)
+        return rc;
+    rc = ABT_xstream_set_main_sched(X.jxs, sched);
+    if (rc != ABT_SUCCESS) {
+        /* the scheduler is still ours and must still be usable: free it */
+        ABT_OK(ABT_sched_free(&sched));
+        return rc;
+    }
+    *h = (void *)X.jxs;
+    return ABT_SUCCESS;
+}
+static void u_set_main_sched_joined(void **h)
+{
+    (void)h;
+    /* back to a scheduler over a built-in pool (the other one is released by the runtime) */
+    ABT_OK(ABT_xstream_set_main_sched_basic(X.jxs, ABT_SCHED_BASIC, 0, NULL));
+}
 static int d_pool_create_user(void **h)
 {
     ABT_pool_user_def def;
@@ -546,6 +570,7 @@ static const op18 OPS[] = {
     { "ABT_task_create(user_pool)", d_task_create_upool, u_thread, ABT_TASK_NULL, 0, 2 },
     { "ABT_thread_revive(user_pool)", d_thread_revive_upool, u_thread_revive_upool, POISON, 0, 2 },
     { "ABT_thread_set_associated_pool(user_pool)", d_set_assoc_upool, u_set_assoc_upool, POISON, 2, 2 },
+    { "ABT_xstream_set_main_sched(joined,user_pool)", d_set_main_sched_joined, u_set_main_sched_joined, POISON, 2, 2 },
     { "ABT_pool_create(user_def)", d_pool_create_user, u_pool, ABT_POOL_NULL, 0, 0 },
     { "ABT_sched_create(user_def)", d_sched_create_user, u_sched, ABT_SCHED_NULL, 0, 0 },
     { "ABT_xstream_create_with_rank", d_xstream_create_with_rank, u_xstream, ABT_XSTREAM_NULL, 0, 0 },
@@ -730,6 +755,8 @@ static void run_c18(void)
         }
         if (X.concurrent)
             ABT_OK(ABT_thread_create(X.pool, bg_fn, NULL, ABT_THREAD_ATTR_NULL, &X.bg));
+        ABT_OK(ABT_xstream_create(ABT_SCHED_NULL, &X.jxs));
+        ABT_OK(ABT_xstream_join(X.jxs));
     }
     ABT_OK(ABT_thread_create(target_pool(), nop_fn, NULL, ABT_THREAD_ATTR_NULL, &revive_t));
     ABT_OK(ABT_thread_join(revive_t));
@@ -768,6 +795,7 @@ static void run_c18(void)
         ABT_OK(ABT_key_free(&X.key));
         ABT_OK(ABT_xstream_join(X.xs));
         ABT_OK(ABT_xstream_free(&X.xs));
+        ABT_OK(ABT_xstream_free(&X.jxs));
     }
     for (int i = 0; i < nmany_keys; i++)
         ABT_OK(ABT_key_free(&many_keys[i]));
